@@ -102,6 +102,9 @@ structure Cfg where
                           -- (new, since the repair of `on_func_var_deleted`); before, it stayed scheduled
   orderedStart : Bool     -- `GlobalContext.start()` creates the start tasks in definition order (`dms_order`, new since
                           -- the repair); before, in the iteration order of the set `dms_delay_start`
+  foldBuiltin : Bool      -- the test that keeps `@service` off pyscript's own services (`reload`,
+                          -- `jupyter_kernel_start`) looks at the lower-cased name (since the repair of C12-F10; before:
+                          -- at the name as written, so `pyscript.Reload` passed and took over `pyscript.reload`)
   foldCase : Bool         -- `service_register` / `service_remove` build their key from the lower-cased name (both
                           -- subsystems, since the repair): names that differ only in case share count and owner, as
                           -- they share the Home Assistant service.  Before: `key = f"{domain}.{service}"` as written.
@@ -109,13 +112,17 @@ deriving DecidableEq, Repr
 
 /-- the two subsystems as the source has them now: the repair switches are read off the source by the extractor -/
 def legacyCfg : Cfg :=
-  ⟨true, false, false, false, false, PsModel.Gen.LEGACY_SKIPS_DUPLICATE, false, false, PsModel.Gen.SERVICE_KEY_LOWERCASED⟩
+  ⟨true, false, false, false, false, PsModel.Gen.LEGACY_SKIPS_DUPLICATE, false, false,
+   PsModel.Gen.BUILTIN_TEST_FOLDS_CASE_LEGACY, PsModel.Gen.SERVICE_KEY_LOWERCASED⟩
 def newCfg : Cfg :=
   ⟨false, PsModel.Gen.SERVICE_OWNER_IS_EVALUATOR, true, true, true, false,
-   PsModel.Gen.DELETED_BEFORE_START_DISCARDED, PsModel.Gen.START_IN_DEFINITION_ORDER, PsModel.Gen.SERVICE_KEY_LOWERCASED⟩
-/-- … and as they were before the `fix:` commits (findings C12-F2, C12-F3, C12-F4, C12-F5, C12-F9) -/
-def legacyPreFix : Cfg := ⟨true, false, false, false, false, false, false, false, false⟩
-def newPreFix : Cfg := ⟨false, true, true, true, true, false, false, false, false⟩
+   PsModel.Gen.DELETED_BEFORE_START_DISCARDED, PsModel.Gen.START_IN_DEFINITION_ORDER,
+   PsModel.Gen.BUILTIN_TEST_FOLDS_CASE_NEW, PsModel.Gen.SERVICE_KEY_LOWERCASED⟩
+/-- … and as they were before the `fix:` commits (findings C12-F2, C12-F3, C12-F4, C12-F5, C12-F9, C12-F10) -/
+def legacyPreFix : Cfg := ⟨true, false, false, false, false, false, false, false, false, false⟩
+def newPreFix : Cfg := ⟨false, true, true, true, true, false, false, false, false, false⟩
+/-- today's code with only the built-in name test as it was before the repair of C12-F10 -/
+def builtinAsWritten (c : Cfg) : Cfg := { c with foldBuiltin := false }
 /-- today's code with only the key of the count table as it was before the repair of C12-F9 -/
 def caseSensitive (c : Cfg) : Cfg := { c with foldCase := false }
 
@@ -202,7 +209,7 @@ inductive Op
   | start (ctx : String) (events : List Nat)       -- GlobalContext.start(): registrations in the observed order
   | delete (ctx var : String)                      -- `del var`
   | unload (ctx : String)                          -- GlobalContext.stop() + the context is dropped (unload / reload)
-deriving Repr
+deriving DecidableEq, Repr
 
 def newHolder (cfg : Cfg) (ctx : String) (fn : Option String) (var : String) (gen : Nat) (decl : List (Svc × Resp)) : Holder :=
   ⟨gen, ctx, var, ownerFor cfg ctx fn, decl, [], .delayed, true⟩
@@ -287,6 +294,34 @@ def step (cfg : Cfg) (st : MState) : Op → MState
 def run (cfg : Cfg) : MState → List Op → MState
   | st, [] => st
   | st, op :: ops => run cfg (step cfg st op) ops
+
+/-! ## pyscript's own services are off limits
+
+`trigger_init` (legacy) tests every name inside its registration loop – `if name[.lower()] in (SERVICE_RELOAD,
+SERVICE_JUPYTER_KERNEL_START): raise SyntaxError` (the exception is logged, the function stays defined with what was
+registered before the offending name); `ServiceDecorator.validate` (new) tests while the manager is validated, before
+anything is started: the manager becomes INVALID, the function has no service at all.  The domain is not looked at.
+This is a filter in front of the life-cycle machine: `admitOp` says which operation the machine sees. -/
+
+def BUILTIN_SERVICES : List String := ["reload", "jupyter_kernel_start"]
+
+/-- `srv_name.split(".", 1)[1]` -/
+def svcPart (k : Svc) : String := String.ofList ((k.toList.dropWhile (· != '.')).drop 1)
+
+def builtinHit (cfg : Cfg) (k : Svc) : Bool :=
+  BUILTIN_SERVICES.contains (if cfg.foldBuiltin then lower (svcPart k) else svcPart k)
+
+def admitOp (cfg : Cfg) : Op → Op
+  | .define ctx fn var gen decl =>
+    if cfg.rollback then
+      -- validated as a whole: one offending name and the new function object has no services; the variable is rebound,
+      -- so the old function object goes as with `del`
+      if decl.any (fun d => builtinHit cfg d.1) then .delete ctx var else .define ctx fn var gen decl
+    else .define ctx fn var gen (decl.takeWhile (fun d => !builtinHit cfg d.1))
+  | op => op
+
+/-- the machine behind the built-in name test -/
+def runB (cfg : Cfg) (st : MState) (ops : List Op) : MState := run cfg st (ops.map (admitOp cfg))
 
 /-! ## calling a service -/
 
